@@ -2,6 +2,7 @@
   Z80.Proofs.ArmTac — the one tactic that discharges a per-slot obligation.
 -/
 import Z80.Proofs.Basic
+import Z80.Proofs.Helpers2
 
 namespace Z80
 open Z80.Gen Z80.Spec
@@ -13,9 +14,10 @@ macro "arm_fin" : tactic =>
       | done
       | (split <;> simp_all <;> done)
       | (apply St.ext <;> simp_all <;> done)
+      | (apply CPU.ext <;> simp_all <;> done)
       | (split <;> simp_all <;> apply St.ext <;> simp_all <;> done)))
 
 macro "arm_tac" : tactic =>
-  `(tactic| (intro s h; simp [z80gen, z80spec, z80helper, h]; arm_fin))
+  `(tactic| (intro s h; simp (config := {implicitDefEqProofs := false}) [z80gen, z80spec, z80helper, h]; arm_fin))
 
 end Z80
